@@ -1,0 +1,7 @@
+//go:build !verif
+
+package tchannel
+
+// verifPoint marks a schedule point used by external verification tooling.
+// Without the "verif" build tag it is an empty function that the compiler inlines away.
+func verifPoint(name string, id uint32) {}
